@@ -62,6 +62,21 @@ MutationAllowed(e) ==
 IsBindingWrite(e) == e.where = "out" /\ e.op = "write" /\ e.name # ".typecache" /\ IsReservedName(e.ncs)
 IsCacheWrite(e) == e.where = "out" /\ e.op = "write" /\ e.name = ".typecache"
 
+\* ---- C13: a and b map each generated file to the sequence of digests of its top-level declarations
+GraphFiles == {"dependency-graph.txt", "dependency-graph.dot"}
+SameSeq(e, f) == f \in DOMAIN e.a /\ f \in DOMAIN e.b /\ e.a[f] = e.b[f]
+SameSet(e, f) == f \in DOMAIN e.a /\ f \in DOMAIN e.b /\ AsSet(e.a[f]) = AsSet(e.b[f]) /\ Len(e.a[f]) = Len(e.b[f])
+OutputsOk(e) ==
+    CASE e.relation = "identical" -> \A f \in DOMAIN e.a \cup DOMAIN e.b : SameSeq(e, f)
+      [] e.relation = "vizonly"   -> /\ DOMAIN e.b = DOMAIN e.a \cup GraphFiles
+                                     /\ \A f \in DOMAIN e.a : SameSeq(e, f)
+      [] e.relation = "declset"   -> \A f \in DOMAIN e.a \cup DOMAIN e.b : SameSet(e, f)
+      [] OTHER -> FALSE
+BadFiles(e) ==
+    {f \in DOMAIN e.a \cup DOMAIN e.b :
+        IF e.relation = "declset" THEN ~SameSet(e, f)
+        ELSE IF f \in GraphFiles /\ e.relation = "vizonly" THEN FALSE ELSE ~SameSeq(e, f)}
+
 Fresh == [clean |-> FALSE, inRun |-> FALSE, forced |-> FALSE, driver |-> "none",
           wrote |-> {}, cacheWritten |-> FALSE, failed |-> FALSE, status |-> "none",
           upToDate |-> FALSE, lostByEnv |-> {}, case |-> "none"]
@@ -125,6 +140,10 @@ Step(e) ==
                         IF st.status # "ok" \/ expected = {} THEN FALSE
                         ELSE IF st.upToDate THEN @
                         ELSE ".typecache" \in st.wrote]
+      [] e.event = "Outputs" ->
+            \* C13: two generations (different processes / transformed sources) related as the property demands
+            /\ Report(OutputsOk(e), "C13", <<e.relation, e.what, BadFiles(e)>>)
+            /\ UNCHANGED st
       [] OTHER -> Report(FALSE, "TRACE", <<"unknown event", e.event>>) /\ UNCHANGED st
 
 TraceInit == l = 1 /\ st = Fresh
